@@ -18,8 +18,6 @@ import (
 	"context"
 	"sync"
 	"sync/atomic"
-
-	"github.com/conduitio/conduit/pkg/foundation/cerrors"
 )
 
 type FanoutNode struct {
@@ -96,7 +94,13 @@ func (n *FanoutNode) Run(ctx context.Context) error {
 								// routine that actually acked the message
 								return msg.Ack()
 							case <-msg.Nacked():
-								return cerrors.New("message was nacked by another node")
+								// another branch nacked the message: call nack just to
+								// get the same return value as the routine that actually
+								// nacked it (nil if the nack was handled, e.g. the record
+								// went to the DLQ). A handled nack must not fail this
+								// branch, or its node stops and nacks every healthy
+								// message queued behind this one.
+								return msg.Nack(nil, n.ID())
 							}
 						}),
 					)
